@@ -161,22 +161,23 @@ func main() {
 }
 
 type harnessReport struct {
-	H          Harness
-	Tier       TierCfg
-	Res        *symex.ExploreResult
-	Paths      int
-	Ended      int
-	Stopped    int
-	Aborts     map[string]int
-	Discharged int
-	Trivial    int
-	Unknown    int
-	Viol       []*replayRec
-	KnownHits  []*replayRec
-	Reach      map[string]int
-	Funcs      map[string]bool
-	Samples    []map[string]interface{}
-	Validate   []*replayRec
+	H              Harness
+	Tier           TierCfg
+	Res            *symex.ExploreResult
+	Paths          int
+	Ended          int
+	Stopped        int
+	Aborts         map[string]int
+	Discharged     int
+	Trivial        int
+	Unknown        int
+	Viol           []*replayRec
+	KnownHits      []*replayRec
+	Reach          map[string]int
+	Funcs          map[string]bool
+	Samples        []map[string]interface{}
+	Validate       []*replayRec
+	minSampleScore int
 }
 
 func runProperty(id, tier string, seed int, reg Registry, only string, workers int, verbose bool) int {
@@ -322,13 +323,34 @@ func runProperty(id, tier string, seed int, reg Registry, only string, workers i
 				rep.Validate = append(rep.Validate, &replayRec{Property: id, Harness: h.Name, Func: h.Func, Pkg: h.Pkg, Label: "(end-of-path model)",
 					Tier: tier, Inputs: p.EndModel, Params: tc.Params, Decs: p.Decisions})
 			}
-			if len(rep.Samples) < 3 && len(p.Asserts) > 0 {
-				as := []string{}
+			if len(p.Asserts) > 0 {
+				// keep the most informative paths as samples: most solver-decided assertions first
+				score := 0
 				for _, a := range p.Asserts {
-					as = append(as, fmt.Sprintf("%s:%s(%.1fms)", a.Label, a.Verdict, a.Ms))
+					if a.Verdict == "unsat" || a.Verdict == "sat" {
+						score += 10
+					}
 				}
-				rep.Samples = append(rep.Samples, map[string]interface{}{"harness": h.Name, "decisions": p.Decisions, "outcome": firstLine(p.Outcome),
-					"asserts": as, "steps": p.Steps, "queries": p.Queries, "model_at_end": p.EndModel})
+				if p.EndModel != nil {
+					score += 5
+				}
+				score += p.Queries / 10
+				if len(rep.Samples) < 3 || score > rep.minSampleScore {
+					as := []string{}
+					for _, a := range p.Asserts {
+						if len(as) < 12 {
+							as = append(as, fmt.Sprintf("%s:%s(%.1fms)", a.Label, a.Verdict, a.Ms))
+						}
+					}
+					smp := map[string]interface{}{"harness": h.Name, "decisions": p.Decisions, "outcome": firstLine(p.Outcome),
+						"asserts": as, "assert_count": len(p.Asserts), "steps": p.Steps, "queries": p.Queries, "model_at_end": p.EndModel, "score": score}
+					rep.Samples = append(rep.Samples, smp)
+					sort.Slice(rep.Samples, func(i, j int) bool { return rep.Samples[i]["score"].(int) > rep.Samples[j]["score"].(int) })
+					if len(rep.Samples) > 3 {
+						rep.Samples = rep.Samples[:3]
+					}
+					rep.minSampleScore = rep.Samples[len(rep.Samples)-1]["score"].(int)
+				}
 			}
 		}
 		if res.Truncated && len(rep.Viol) == 0 {
@@ -688,8 +710,8 @@ func writeEvidence(id, tier string, seed int, reports []*harnessReport, inconclu
 				funcs[f] = true
 			}
 		}
-		for _, s := range r.Samples {
-			if len(samples) < 8 {
+		for i, s := range r.Samples {
+			if i < 2 && len(samples) < 24 {
 				samples = append(samples, s)
 			}
 		}
